@@ -800,7 +800,13 @@ func (fr *Frame) srcText(pos token.Pos, want func(ast.Node) bool) string {
 
 func isIndexExpr(n ast.Node) bool  { _, ok := n.(*ast.IndexExpr); return ok }
 func isSliceExpr(n ast.Node) bool  { _, ok := n.(*ast.SliceExpr); return ok }
-func isBinaryExpr(n ast.Node) bool { _, ok := n.(*ast.BinaryExpr); return ok }
+func isBinaryExpr(n ast.Node) bool {
+	switch n.(type) {
+	case *ast.BinaryExpr, *ast.IncDecStmt, *ast.AssignStmt:
+		return true
+	}
+	return false
+}
 func isAnyExpr(n ast.Node) bool    { _, ok := n.(ast.Expr); return ok }
 
 func (fr *Frame) safety(kind, what string, reach, goal string, pos token.Pos) {
